@@ -15,8 +15,9 @@ from vp.ref import numeric as N
 PROPERTY = 'C06'
 LEVEL = 'exploration'
 EXHAUSTIVE = False
-EXHAUSTIVE_NOTE = ('sub-checks grid2/grid1 enumerate (itertools.product) every ordered pair of the 168 hand-chosen boundary '
-                   'values (42 per numeric type) x 6 binary operators and every boundary value x 9 unary forms x precisions '
+EXHAUSTIVE_NOTE = ('sub-checks grid2/grid1 enumerate (itertools.product) every ordered pair of the ~175 hand-chosen boundary '
+                   'values (40-47 per numeric type, incl. underflow operands of both signs), the minimum/maximum of every bounded '
+                   'integer subtype against all of them (both operand orders) x 6 binary operators and every boundary value x 9 unary forms x precisions '
                    '-4..6; the random sub-checks are a sample')
 RULE = ('binary: operand pair (a, b) over integer/decimal/float/double/untypedAtomic rendered as literals, xs: constructor '
         'calls or $variables, XPath version 1.0/2.0/3.0/3.1; every case evaluates + - * div idiv mod and the identity '
@@ -44,7 +45,8 @@ ASSUMPTIONS = [
 FLOORS = {
     'bin:mixed-sign': (0.15, 'bin:pair'), 'bin:mixed-type': (0.30, 'bin:pair'), 'bin:exact-quotient': (0.08, 'bin:pair'),
     'bin:zero-divisor': (0.02, 'bin:pair'), 'bin:nonfinite': (0.03, 'bin:pair'),
-    'un:tie': (0.05, 'un:arg'), 'un:negative': (0.25, 'un:arg'),
+    'un:tie': (0.05, 'un:arg'), 'un:negative': (0.25, 'un:arg'), 'bin:fp-underflow-negative': (0.004, 'bin:pair'),
+    'bin:subint-operand': (0.08, 'bin:pair'), 'un:subint-operand': (0.05, 'un:arg'),
 }
 
 BIN_OPS = ('+', '-', '*', 'div', 'idiv', 'mod')
@@ -209,7 +211,7 @@ def _widen(val):
 
 
 def _norm_types(mode, atom):
-    if mode == '1.0' and atom[0] in ('float', 'untypedAtomic'):
+    if mode == '1.0' and (atom[0] in ('float', 'untypedAtomic') or atom[0] in A.INT_SUBTYPES):
         raise ValueError('XPath 1.0 case with a typed operand: ' + repr(atom))
 
 
@@ -258,8 +260,10 @@ def judge_binary(case, rec: Recorder | None = None) -> list[Disc]:
     ops = case.get('ops') or (BIN_OPS_10 if x1 else BIN_OPS)
     negzero = (_dec_negzero(a) and not sa.startswith('(')) or (_dec_negzero(b) and not sb.startswith('('))
     pre = 'C06/xp1/' if x1 else 'C06/'
+    underflow = False
     for op in ops:
         exp = N.binop(op, ra, rb)
+        underflow = underflow or 'underflow' in exp.note
         expr = f'{sa} {op} {sb}'
         obs = observe(mode, expr, variables, allvar)
         cls = _bin_class(op, px, py)
@@ -304,7 +308,9 @@ def judge_binary(case, rec: Recorder | None = None) -> list[Disc]:
         classes = ['bin:pair', f'bin:mode-{mode}', f'bin:form-{form}', f'bin:types-{types}']
         for flag, name in ((mixed_sign, 'mixed-sign'), (mixed_type, 'mixed-type'), (zero_div, 'zero-divisor'),
                            (nonfin, 'nonfinite'), (exact_q, 'exact-quotient'), (ident, 'identity-evaluated'),
-                           (exact_q and mixed_sign, 'exact-negative-quotient')):
+                           (exact_q and mixed_sign, 'exact-negative-quotient'), (underflow, 'fp-underflow'),
+                           (underflow and mixed_sign, 'fp-underflow-negative'),
+                           (a[0] in A.INT_SUBTYPES or b[0] in A.INT_SUBTYPES, 'subint-operand')):
             if flag:
                 classes.append('bin:' + name)
         nt = mixed_sign or mixed_type or zero_div or nonfin
@@ -390,7 +396,8 @@ def judge_unary(case, rec: Recorder | None = None) -> list[Disc]:
         neg = _sign_letter(ra[1]) in ('n', 'm')
         tie = fin and any((Fraction(ra[1]) * Fraction(10) ** q).denominator == 2 for q in (0, p))
         classes = ['un:arg', f'un:mode-{mode}', f'un:form-{form}', f'un:type-{a[0]}']
-        for flag, name in ((neg, 'negative'), (tie, 'tie'), (not fin, 'nonfinite'), (p < 0, 'negative-precision')):
+        for flag, name in ((neg, 'negative'), (tie, 'tie'), (not fin, 'nonfinite'), (p < 0, 'negative-precision'),
+                           (a[0] in A.INT_SUBTYPES, 'subint-operand')):
             if flag:
                 classes.append('un:' + name)
         rec.case([mode, form, a, p, case.get('fns')], nontrivial=neg or tie or not fin, classes=classes, n=len(done),
@@ -406,8 +413,9 @@ _form = st.sampled_from(['lit', 'ctor', 'var'])
 _TYPES_10 = ('integer', 'decimal', 'double')
 
 
-_PAIR_10, _PAIR_ALL = A.numeric_pair(_TYPES_10), A.numeric_pair()
-_NUM_10, _NUM_ALL = A.numeric(_TYPES_10), A.numeric(A.NUMERIC_TYPES)
+_ALL_TYPES = A.NUMERIC_TYPES + ('untypedAtomic', 'subint')
+_PAIR_10, _PAIR_ALL = A.numeric_pair(_TYPES_10), A.numeric_pair(_ALL_TYPES)
+_NUM_10, _NUM_ALL = A.numeric(_TYPES_10), A.numeric(A.NUMERIC_TYPES + ('subint',))
 
 
 @st.composite
@@ -432,15 +440,20 @@ def _grid_atoms(mode):
     return A.boundary_atoms(_TYPES_10 if mode == '1.0' else A.NUMERIC_TYPES)
 
 
-def grid2_cases(mode, form, lo, hi):
+def grid2_cases(mode, form, lo, hi, sub=False):
     atoms = _grid_atoms(mode)
-    for i, (a, b) in enumerate(itertools.product(atoms, atoms)):
+    if sub:      # bounded integer subtypes against everything, both operand orders
+        subs = A.subint_boundary_atoms()
+        pairs = itertools.chain(itertools.product(subs, atoms + subs), itertools.product(atoms, subs))
+    else:
+        pairs = itertools.product(atoms, atoms)
+    for i, (a, b) in enumerate(pairs):
         if lo <= i < hi:
             yield {'mode': mode, 'form': form, 'a': a, 'b': b}
 
 
 def grid1_cases(mode, form):
-    for a in _grid_atoms(mode):
+    for a in _grid_atoms(mode) + ([] if mode == '1.0' else A.subint_boundary_atoms()):
         for p in PRECISIONS:
             c = {'mode': mode, 'form': form, 'a': a, 'p': p}
             if p != 0:
@@ -483,6 +496,13 @@ def jobs(tier, seed):
     n10 = len(_grid_atoms('1.0')) ** 2
     for i in range(3):
         out.append({'check': 'grid2', 'mode': '1.0', 'form': 'var', 'lo': n10 * i // 3, 'hi': n10 * (i + 1) // 3})
+    nsub = len(A.subint_boundary_atoms())
+    tsub = nsub * (n_atoms + nsub) + n_atoms * nsub
+    out.append({'check': 'grid2', 'mode': '3.1', 'form': 'var', 'sub': True, 'lo': 0, 'hi': tsub // 2})
+    out.append({'check': 'grid2', 'mode': '2.0', 'form': 'ctor', 'sub': True, 'lo': tsub // 2, 'hi': tsub})
+    if not q:
+        out.append({'check': 'grid2', 'mode': '3.1', 'form': 'var', 'sub': True, 'lo': tsub // 2, 'hi': tsub})
+        out.append({'check': 'grid2', 'mode': '2.0', 'form': 'ctor', 'sub': True, 'lo': 0, 'hi': tsub // 2})
     out.append({'check': 'grid1', 'modes': [['3.1', 'var'], ['2.0', 'ctor'], ['1.0', 'var'], ['3.0', 'ctor']]})
     if not q:
         for i in range(k):
@@ -500,7 +520,7 @@ def jobs(tier, seed):
 
 def _job_cases(job):
     if job['check'] == 'grid2':
-        return grid2_cases(job['mode'], job['form'], job['lo'], job['hi'])
+        return grid2_cases(job['mode'], job['form'], job['lo'], job['hi'], job.get('sub', False))
     return itertools.chain.from_iterable(grid1_cases(m, f) for m, f in job['modes'])
 
 
